@@ -851,10 +851,14 @@ def _history(R, cls, shape, nev):
                 cur = {"op": "assign", "d": d, "s": s}
             elif r < 0.15:
                 cur = {"op": "assignbits", "d": d, "b": _rand_bits(R, nb)}
+                if R.random() < 0.4:
+                    cur["via"] = "foreign"       # RHS: a bitstruct of ANOTHER class with this packed value
             elif r < 0.27:
                 cur = {"op": "nbassign", "d": d, "s": s}
             elif r < 0.31:
                 cur = {"op": "nbassignbits", "d": d, "b": _rand_bits(R, nb)}
+                if R.random() < 0.4:
+                    cur["via"] = "foreign"
             elif r < 0.43:
                 fl = [n for n in NM if pend.get(n)]
                 if not fl:
